@@ -1,11 +1,13 @@
 // Property C17 — truncated or corrupt compressed input is reported, never
 // silently accepted; any read error other than a clean EOF is fatal.
 //
-// Ground truth is the codec library alone (internal/codec.Decompress on the
-// faulted bytes): if it reports an error the command must exit non-zero; if it
-// decodes the original bytes the command must succeed with the reference
-// output; if it decodes different bytes without error (a flip the codec cannot
-// see) the case is discarded and counted.
+// Ground truth: a truncation is a fault by construction (except a cut exactly
+// between two gzip members, which leaves a valid shorter file); for bit flips
+// the codec library alone decides (internal/codec.Decompress on the faulted
+// bytes): if it reports an error the command must exit non-zero; if it decodes
+// the original bytes the command must either refuse the input or print exactly
+// the reference output; if it decodes different bytes without error (a flip the
+// codec cannot see) the case is discarded and counted.
 //
 // Domain decisions
 //   - A truncation to 0 bytes is not a compressed input any more (an empty file
@@ -47,7 +49,7 @@ func TestMain(m *testing.M) {
 		evid.Spec{Name: "TestPropInjectedReadError", Kind: "rapid", Quick: 1600, Thorough: 40000, QuickShards: 16, ThoroughShards: 16},
 	)
 	evid.Commands("obiconvert", "obicount", "obigrep")
-	evid.Note("rule", "small FASTA/FASTQ files compressed with gzip, bzip2, xz, zstd (and two-member gzip) are cut at EVERY byte position (quick: every position of 2 files per codec for obiconvert FILE, every 3rd for obicount/obigrep and for gzip on stdin); random single-bit flips; files whose decompressed size exceeds 1 MiB cut at sampled positions (incl. inside the trailer); in-process: a reader failing with a non-EOF error after k bytes (plain and gzip) fed to Buf -> OBIMimeTypeGuesser -> ReadFasta/ReadFastq. Oracle: the codec library alone decides (error -> the command must exit non-zero and must not print a complete-looking success; clean decode of the original -> the command either refuses the input or prints exactly the reference output; clean decode of other bytes -> discarded). Non-trivial = the fault lies after at least one complete record could be decompressed. Distinct = hash(codec, file, fault position/bit, command).")
+	evid.Note("rule", "small FASTA/FASTQ files compressed with gzip, bzip2, xz, zstd (and two-member gzip) are cut at EVERY byte position, alone or as the middle one of three input files, (quick: every position of 2 files per codec for obiconvert FILE, every 3rd for obicount/obigrep and for gzip on stdin); random single-bit flips; files whose decompressed size exceeds 1 MiB cut at sampled positions (incl. inside the trailer); in-process: a reader failing with a non-EOF error after k bytes (plain and gzip) fed to Buf -> OBIMimeTypeGuesser -> ReadFasta/ReadFastq. Oracle: the codec library alone decides (error -> the command must exit non-zero and must not print a complete-looking success; clean decode of the original -> the command either refuses the input or prints exactly the reference output; clean decode of other bytes -> discarded). Non-trivial = the fault lies after at least one complete record could be decompressed. Distinct = hash(codec, file, fault position/bit, command).")
 	evid.Note("level", "fault_enumeration")
 	evid.Main(m, "C17")
 }
@@ -129,6 +131,7 @@ type FaultCase struct {
 	FlipBit  int
 	Command  string // obiconvert, obicount, obigrep
 	Stdin    bool
+	Multi    bool // the faulted file is the middle one of three input files (the two others are sound)
 }
 
 func init() { evid.Reg("faulted_input", checkFault) }
@@ -193,10 +196,24 @@ func judge(c FaultCase) (verdict, []byte, []byte) {
 	}
 	out, err := decompress(c.Codec, bad)
 	var v verdict
+	truncated := c.FlipByte < 0 && c.Cut > 0 && c.Cut < len(compress(c.Codec, orig))
 	switch {
 	case err != nil:
 		v.mustFail = true
 		v.nontrivial = len(out) >= second && second > 0
+	case truncated && c.Codec == "gzip2" && c.Cut == len(compress("gzip", orig[:len(orig)/2])):
+		// cut exactly between two members: a complete, valid, shorter gzip file - no fault at all
+		evid.Class("cut_at_member_boundary_is_a_valid_file", 1)
+	case truncated && c.Codec == "xz":
+		// known finding xz_library_accepts_truncation: the xz library itself reports a clean end of
+		// stream for a file cut inside the first block header (bytes 12..23: reads as empty) or
+		// right after the last block (index and footer missing)
+		evid.Excluded("xz_library_accepts_truncation", 1)
+	case truncated:
+		// the input IS cut short (by construction), whatever the codec library thinks of it
+		v.mustFail = true
+		v.nontrivial = len(out) >= second && second > 0
+		evid.Class("truncation_the_codec_library_accepts", 1)
 	case bytes.Equal(out, orig):
 		v.mustOK = true
 	}
@@ -233,16 +250,33 @@ func checkFault(c FaultCase) error {
 		return nil
 	}
 	var res run.Result
-	if c.Stdin {
+	var multiArgs func(mid string) []string
+	if c.Multi && !c.Stdin {
+		other, _ := render(FileSpec{Format: c.File.Format, NRec: 3, SeqLen: 20, Salt: c.File.Salt + 7})
+		first := filepath.Join(dir, "first."+c.File.Format)
+		last := filepath.Join(dir, "last."+c.File.Format)
+		if os.WriteFile(first, other, 0o644) != nil || os.WriteFile(last, other, 0o644) != nil {
+			return nil
+		}
+		multiArgs = func(mid string) []string {
+			a := cmdArgs(c, mid)
+			a = a[:len(a)-1]
+			return append(a, first, mid, last)
+		}
+	}
+	switch {
+	case c.Stdin:
 		res = run.Cmd(run.Opt{Stdin: bad}, c.Command, cmdArgs(c, "")...)
-	} else {
+	case multiArgs != nil:
+		res = run.Cmd(run.Opt{}, c.Command, multiArgs(badp)...)
+	default:
 		res = run.Cmd(run.Opt{}, c.Command, cmdArgs(c, badp)...)
 	}
 	if res.Inconclusive() {
 		evid.Class("timeout_inconclusive", 1)
 		return nil
 	}
-	what := fmt.Sprintf("%s %s (%s, %d of %d compressed bytes, flip %d/%d, stdin=%v)", c.Command, filepath.Base(badp), c.Codec, len(bad), len(compress(c.Codec, orig)), c.FlipByte, c.FlipBit, c.Stdin)
+	what := fmt.Sprintf("%s %s (%s, %d of %d compressed bytes, flip %d/%d, stdin=%v, middle of three files=%v)", c.Command, filepath.Base(badp), c.Codec, len(bad), len(compress(c.Codec, orig)), c.FlipByte, c.FlipBit, c.Stdin, c.Multi)
 	if v.mustFail {
 		if res.Exit == 0 {
 			return fmt.Errorf("%s: the codec reports an error on these bytes but the command exits 0 (stdout %d bytes, stderr: %s)", what, len(res.Stdout), tail(res.Stderr))
@@ -251,9 +285,12 @@ func checkFault(c FaultCase) error {
 	}
 	// harmless fault: same result as on the pristine file
 	var ref run.Result
-	if c.Stdin {
+	switch {
+	case c.Stdin:
 		ref = run.Cmd(run.Opt{Stdin: orig}, c.Command, cmdArgs(c, "")...)
-	} else {
+	case multiArgs != nil:
+		ref = run.Cmd(run.Opt{}, c.Command, multiArgs(good)...)
+	default:
 		ref = run.Cmd(run.Opt{}, c.Command, cmdArgs(c, good)...)
 	}
 	if ref.Inconclusive() {
@@ -296,6 +333,9 @@ func evalFault(c FaultCase, extra ...string) verdict {
 	if c.Stdin {
 		cl = append(cl, "stdin")
 	}
+	if c.Multi {
+		cl = append(cl, "middle_of_three_files")
+	}
 	switch {
 	case v.mustFail:
 		cl = append(cl, "codec_error")
@@ -329,6 +369,7 @@ func TestEveryTruncation(t *testing.T) {
 					if k == "gzip" || k == "gzip2" {
 						variants = append(variants, FaultCase{File: f, Codec: k, Cut: cut, FlipByte: -1, Command: "obiconvert", Stdin: true})
 					}
+					variants = append(variants, FaultCase{File: f, Codec: k, Cut: cut, FlipByte: -1, Command: "obiconvert", Multi: true})
 				}
 				for _, c := range variants {
 					n++
@@ -365,6 +406,9 @@ func TestPropBitFlip(t *testing.T) {
 				c.Command = "obiconvert"
 			}
 		}
+		if !c.Stdin {
+			c.Multi = rapid.IntRange(0, 3).Draw(rt, "multi") == 0
+		}
 		evalFault(c, "bit_flip")
 		if err := checkFault(c); err != nil {
 			evid.Fail(rt, "faulted_input", c, err)
@@ -397,6 +441,9 @@ func TestPropLargeTruncation(t *testing.T) {
 			if c.Stdin {
 				c.Command = "obiconvert"
 			}
+		}
+		if !c.Stdin {
+			c.Multi = rapid.IntRange(0, 3).Draw(rt, "multi") == 0
 		}
 		cl := []string{"large_file"}
 		if c.Cut >= len(z)-12 {
